@@ -69,6 +69,13 @@ pub fn gen(tier: &str, r: &mut Rng) -> Vec<String> {
         let flags = format!("1{}{}", rr.below(2), rr.below(2));
         out.push(format!("c15 filter pdb Loose {} {}", flags, enc_bytes((lines.join("\n") + "\n").as_bytes())));
     }
+    // (a'') SEQRES records: the full read checks them (and inserts atom-less residues for names without coordinates),
+    // the only-atomic read does not look at them
+    for k in 0..budget(tier, 40, 800) {
+        let lines = pdbtext::gen_seqres_doc(r);
+        let flags = if k % 2 == 0 { "001".to_string() } else { format!("{}{}{}", r.below(2), r.below(2), r.below(2)) };
+        out.push(format!("c15 filter pdb Loose {} {}", flags, enc_bytes((lines.join("\n") + "\n").as_bytes())));
+    }
     // (b) opening by path
     for _ in 0..budget(tier, 300, 6_000) {
         let name = names(r);
@@ -178,7 +185,13 @@ pub fn exec(case: &str) -> Exec {
                 if let (Read::Ok(p, _), Read::Ok(q, _)) = (&r, &r2) {
                     // ANISOU records are not ATOM records: the PDB reader documents that only ATOM/HETATM are parsed
                     let keep_atf = fmt != "pdb";
-                    if hier(p, keep_atf) != hier(q, keep_atf) { ex.failures.push(feats(Failure::new("only-atomic-coords-changes-the-hierarchy", crate::c02::first_diff(&hier(q, keep_atf), &hier(p, keep_atf))))); }
+                    if hier(p, keep_atf) != hier(q, keep_atf) {
+                        // is the difference nothing but what the SEQRES checks of the full read did: atom-less residues put in
+                        // for names without coordinates, and the chain re-sorted when one was put in?
+                        let canon = |x: &PDB| { let mut y = x.clone(); y.remove_residues_by(|r| r.atom_count() == 0); y.full_sort(); hier(&y, keep_atf) };
+                        let seqres_only = q.residues().any(|r| r.atom_count() == 0) && canon(p) == canon(q);
+                        ex.failures.push(feats(Failure::new("only-atomic-coords-changes-the-hierarchy", crate::c02::first_diff(&hier(q, keep_atf), &hier(p, keep_atf)))).feat("only_seqres_placeholders_differ", seqres_only));
+                    }
                     if !no_metadata(p) { ex.failures.push(feats(Failure::new("only-atomic-coords-keeps-metadata", meta_only(p)))); }
                 }
             }
